@@ -15,6 +15,9 @@
  *   args <lvl> <hex>                                MHD_parse_arguments_ on an exact-size heap string
  *   enumargs <lvl> <maxlen> <prehex> <sufhex>
  *   cookie <lvl> <hex>                              parse_cookie_header on "Cookie: <value>"
+ *   lookup <kindmask> <keyhex> (<kind> <namehex> <valuehex|~>)*   the elements are added in this order, then
+ *                                                   MHD_lookup_connection_value_n (kindmask, key) -> "yes <valuehex|~>" / "no"
+ *                                                   (+ " z=<valuehex|~>" : MHD_lookup_connection_value, when the key has no NUL)
  *   enumck <lvl> <maxlen> <prehex> <sufhex>
  */
 #include "MHD_config.h"
@@ -359,6 +362,50 @@ int main (void)
       if (!s || !set_daemon (lvl, 32768)) puts ("bad-op");
       else { if (!strcmp (op, "args")) do_args (lvl, s, n); else do_cookie (lvl, s, n); puts (obuf); }
       free (s);
+      continue;
+    }
+    if (!strcmp (op, "lookup") && l.n >= 3 && 0 == (l.n - 3) % 3)
+    {
+      static uint8_t *nm[LP_MAXW], *vl[LP_MAXW]; static size_t nl[LP_MAXW], vn[LP_MAXW];
+      int i, ne = (l.n - 3) / 3, bad = 0;
+      size_t klen; uint8_t *key = lp_unhex (l.w[2], &klen);
+      unsigned mask = (unsigned) atoi (l.w[1]);
+      for (i = 0; i < ne; i++)
+      {
+        nm[i] = lp_unhex (l.w[3 + 3 * i + 1], &nl[i]);
+        if (!strcmp (l.w[3 + 3 * i + 2], "~")) { vl[i] = NULL; vn[i] = 0; }
+        else { vl[i] = lp_unhex (l.w[3 + 3 * i + 2], &vn[i]); if (!vl[i]) bad = 1; }
+        if (!nm[i]) bad = 1;
+      }
+      if (bad || !key || !set_daemon (0, 32768) || !conn_init (0)) puts ("bad-op");
+      else
+      {
+        const char *val = NULL; size_t vlen = 0; enum MHD_Result r;
+        char *kz = (char *) malloc (klen + 1);            /* exact size + NUL: ASan sees over-reads */
+        memcpy (kz, key, klen); kz[klen] = 0;
+        o_reset ();
+        for (i = 0; i < ne; i++)
+        { /* the strings must be NUL-terminated like every string MHD stores */
+          char *n2 = (char *) MHD_pool_allocate (conn.pool, nl[i] + 1, false);
+          char *v2 = vl[i] ? (char *) MHD_pool_allocate (conn.pool, vn[i] + 1, false) : NULL;
+          memcpy (n2, nm[i], nl[i]); n2[nl[i]] = 0;
+          if (v2) { memcpy (v2, vl[i], vn[i]); v2[vn[i]] = 0; }
+          MHD_set_connection_value_n_nocheck_ (&conn, (enum MHD_ValueKind) atoi (l.w[3 + 3 * i]), n2, nl[i], v2, vn[i]);
+        }
+        r = MHD_lookup_connection_value_n (&conn, (enum MHD_ValueKind) mask, kz, klen, &val, &vlen);
+        if (MHD_NO == r) o_str ("no");
+        else { o_str ("yes "); o_hex (val, vlen); }
+        if (NULL == memchr (kz, 0, klen))
+        {
+          const char *z = MHD_lookup_connection_value (&conn, (enum MHD_ValueKind) mask, kz);
+          o_str (" z="); o_hex (z, z ? strlen (z) : 0);
+        }
+        puts (obuf);
+        free (kz);
+        conn_release ();
+      }
+      free (key);
+      for (i = 0; i < ne; i++) { free (nm[i]); free (vl[i]); }
       continue;
     }
     if ((!strcmp (op, "enumargs") || !strcmp (op, "enumck")) && l.n == 5 && lp_u64 (l.w[2], &maxlen) && maxlen <= 8)
